@@ -546,6 +546,9 @@ func provenanceViolation(v ssa.Value, rawF *types.Var, seen map[ssa.Value]bool, 
 		}
 		return "result of " + x.Call.Value.Name() + describeCallShort(x)
 	case *ssa.MakeSlice:
+		if k, ok := constInt(x.Len); ok && k == 0 {
+			return "" // an empty, pre-sized base to append to: it contributes no bytes
+		}
 		return "a freshly allocated buffer (its bytes are not the server's)"
 	case *ssa.Alloc:
 		return "a local buffer"
